@@ -22,6 +22,7 @@ def run(ck: Checker):
     ck.rule('C10-2', 'no cycle of unbounded waits between the source lock and the window slots: no untimed lock acquisition precedes the consume step while a put under the lock can block (WAITFOR)')
     ck.rule('C10-3', 'link before publish: the new element is linked into the list before the blocking put into the window (PRECEDE)')
     ck.rule('C10-4', 'pull once: every pull from the source happens under the source lock after an under-lock re-test of the emptiness predicate (HELD+MUSTPASS)', minimum=2)
+    ck.rule('C10-6', 'the source\'s failure is not swallowed: an Exception / StopRequested raised by a pull leaves the pulling fork\'s step as an exception on every path (EXITS)', minimum=2)
     ck.rule('C10-5', 'atomic count-and-pop: the per-element counter increment, its comparison with the number of forks and the window pop are one region of the element lock (HELD)')
     f = ck.repo.func(TEE, 'Fork.__next__')
     sc = Scope(f)
@@ -156,6 +157,42 @@ def run(ck: Checker):
         if p is not None:
             probs.append('the source is pulled without re-testing, under the lock, that the element is still missing: two forks can both pull')
         ck.ob('C10-4', f, pn.ast, not probs, '; '.join(probs) if probs else f'pull under `{LOCK}` after an under-lock re-test of the emptiness predicate')
+
+    # ------------------------------------------------------------ C10-6
+    # a failure of the source leaves the pulling fork's step as that failure: it is not swallowed
+    # (a `break`/`return` in a finally, or a too-wide handler, would turn it into a clean end of stream)
+    for pn in pulls:
+        probs = []
+        for e in cfg.succ[pn.id]:
+            if e.kind != 'exc':
+                continue
+            R = set(e.data or ()) & {'Exception', 'StopRequested'}
+            if not R:
+                continue
+            # follow the exceptional flow: handler nodes that caught (part of) R, cleanup copies pending this exception
+            seen, todo = set(), [e.dst]
+            while todo:
+                k = todo.pop()
+                if k in seen:
+                    continue
+                seen.add(k)
+                kn = cfg.nodes[k]
+                if k == cfg.exit_raise:
+                    continue
+                if kn.kind == 'except':
+                    caught = set(kn.extra.get('caught') or ()) & R
+                    if caught:
+                        # a handler for the source's failure: acceptable only if every path through it re-raises
+                        if path_avoiding(cfg, [k], {cfg.exit_return} | {x.id for x in cfg.nodes if x.pending is None and x.kind not in ('except', 'exit_raise') and x.id not in reachable(cfg, [k], avoid={cfg.exit_raise}) - {k}}, avoid=set()) is not None and cfg.exit_raise not in reachable(cfg, [k]):
+                            probs.append(f'the handler at L{kn.lineno} swallows `{"/".join(sorted(caught))}` raised by the source')
+                        continue
+                    continue
+                if not (kn.pending and kn.pending[0] == 'exc'):
+                    probs.append(f'`{"/".join(sorted(R))}` raised by the source is discarded at L{kn.lineno} (`{norm_text(kn.ast)[:30] if kn.ast is not None else kn.kind}`): the fork goes on and ends as if the source were exhausted, instead of raising the source\'s exception')
+                    continue
+                for e2 in cfg.succ[k]:
+                    todo.append(e2.dst)
+        ck.ob('C10-6', f, pn.ast, not probs, '; '.join(sorted(set(probs))) if probs else 'an Exception / StopRequested raised by the source propagates out of the step (after the lock is released)')
 
     # ------------------------------------------------------------ C10-5
     incs = [n for n in cfg.nodes if isinstance(n.ast, ast.AugAssign) and isinstance(n.ast.target, ast.Attribute) and n.ast.target.attr == 'n']
